@@ -183,3 +183,9 @@ def run(rep: Report, prog: Program, tier: str) -> None:
     if n_cl < 3:
         raise AnalysisError(f"R20.6: only {n_cl} clamps found")
     rep.floor("R20.6", 3)
+
+    rep.rule("R20.7", "a Retry-After hint is computed afresh for every response: nothing in the parsing / strategy chain is memoised over a clock reading (an HTTP-date header cached with the delay it meant the first time would be honoured again, unchanged, an hour later)")
+    from .foundations import memo_is_pure
+
+    memo_is_pure(rep, "R20.7", prog, ("redress.extras", "redress.strategies", "redress.classify"))
+    rep.floor("R20.7", 1)
